@@ -9,7 +9,13 @@
 #include <jsoncons_ext/jsonschema/jsonschema.hpp>
 using namespace jsoncons;
 
-static std::string str_of(const mj::Value& a) { std::string s; for (size_t i = 0; i < a.size(); ++i) s.push_back((char)a[i].as_int()); return s; }
+static void put_utf8(std::string& s, uint32_t cp) {
+    if (cp < 0x80) s.push_back((char)cp);
+    else if (cp < 0x800) { s.push_back((char)(0xC0 | (cp >> 6))); s.push_back((char)(0x80 | (cp & 0x3F))); }
+    else if (cp < 0x10000) { s.push_back((char)(0xE0 | (cp >> 12))); s.push_back((char)(0x80 | ((cp >> 6) & 0x3F))); s.push_back((char)(0x80 | (cp & 0x3F))); }
+    else { s.push_back((char)(0xF0 | (cp >> 18))); s.push_back((char)(0x80 | ((cp >> 12) & 0x3F))); s.push_back((char)(0x80 | ((cp >> 6) & 0x3F))); s.push_back((char)(0x80 | (cp & 0x3F))); }
+}
+static std::string str_of(const mj::Value& a) { std::string s; for (size_t i = 0; i < a.size(); ++i) put_utf8(s, (uint32_t)a[i].as_int()); return s; }
 
 struct Dialect { const char* name; const char* schema; const char* id; const char* defs; };
 static const Dialect DIALECTS[] = {
@@ -19,6 +25,34 @@ static const Dialect DIALECTS[] = {
     {"d2019", "https://json-schema.org/draft/2019-09/schema", "$id", "$defs"},
     {"d2020", "https://json-schema.org/draft/2020-12/schema", "$id", "$defs"},
 };
+
+// (ptr) "$ref": "#/<defs>/<token>": the token is the fragment form (RFC 6901 section 6) of a member name; the members literally named
+// like the encoded forms are decoys
+template <class Json>
+static void run_ptr_case(size_t idx, const mj::Value& c, const Dialect& d, const char* flavour, long& nchecks) {
+    const std::string key = str_of(c["key"]), tok = str_of(c["tok"]);
+    auto fail = [&](const char* what, const std::string& got) {
+        mj::Value m = hz::rec("mismatch"); m.set("idx", (int64_t)idx); m.set("flavour", flavour); m.set("dialect", d.name); m.set("what", what);
+        m.set("got", got); m.set("key_s", key); m.set("tok_s", tok); m.set("case", c); hz::emit_mismatch(m);
+    };
+    Json s(json_object_arg);
+    s["$schema"] = d.schema;
+    s[d.id] = str_of(c["base"]);
+    Json use(json_object_arg); use["$ref"] = std::string("#/") + d.defs + "/" + tok;
+    Json all(json_array_arg); all.push_back(use); s["allOf"] = all;
+    Json defs(json_object_arg);
+    {   Json x(json_object_arg); x["type"] = "integer"; defs[key] = x; }
+    for (size_t i = 0; i < c["decoys"].size(); ++i) { Json y(json_object_arg); y["type"] = "string"; defs[str_of(c["decoys"][i])] = y; }
+    s[d.defs] = defs;
+    ++nchecks;
+    try {
+        auto compiled = jsonschema::make_json_schema(s);
+        bool vi = compiled.is_valid(Json(1)), vs = compiled.is_valid(Json("s"));
+        if (!vi || vs) fail("verdict", std::string("int=") + (vi ? "valid" : "invalid") + " str=" + (vs ? "valid" : "invalid"));
+    } catch (const std::exception& e) {
+        fail("schema-rejected", e.what());
+    }
+}
 
 template <class Json>
 static void run_case(size_t idx, const mj::Value& c, const Dialect& d, const char* flavour, long& nchecks) {
@@ -63,7 +97,9 @@ int main(int argc, char** argv) {
     long ncases = 0, nchecks = 0;
     hz::for_each_case(args, [&](size_t idx, const std::string& line) {
         mj::Value c = mj::parse(line); ++ncases;
+        const bool ptr = c["cls"].str() == "ptr" || c["cls"].str() == "ptrx";
         for (const Dialect& d : DIALECTS) {
+            if (ptr) { run_ptr_case<json>(idx, c, d, "json", nchecks); run_ptr_case<ojson>(idx, c, d, "ojson", nchecks); continue; }
             run_case<json>(idx, c, d, "json", nchecks);
             run_case<ojson>(idx, c, d, "ojson", nchecks);
         }
